@@ -44,6 +44,9 @@ func canonD(v ssa.Value, d int) string {
 	case *ssa.ChangeType:
 		return canonD(x.X, d+1)
 	case *ssa.Field:
+		if fieldShort(x) == "" {
+			return canonD(x.X, d+1)
+		}
 		return canonD(x.X, d+1) + "." + fieldShort(x)
 	case *ssa.Extract:
 		return canonD(x.Tuple, d+1) + fmt.Sprintf("#%d", x.Index)
@@ -102,6 +105,9 @@ func canonAddr(a ssa.Value, d int) string {
 	switch x := a.(type) {
 	case *ssa.FieldAddr:
 		base := canonBase(x.X, d+1)
+		if fieldShort(x) == "" {
+			return base
+		}
 		return base + "." + fieldShort(x)
 	case *ssa.IndexAddr:
 		return canonBase(x.X, d+1) + "[" + canonD(x.Index, d+1) + "]"
@@ -229,6 +235,86 @@ func normCondText(c string) string {
 	return c
 }
 
+// normCond is normCondText on a branch edge, with the truth value the normalised condition has on that edge.
+func normCond(c *Cond) (string, bool) {
+	raw := canon(c.If.Cond)
+	truth := c.Pos
+	// edgeCond folded leading negations into Pos already; account for the relation flips of the normal form
+	v := c.If.Cond
+	for {
+		if u, ok := v.(*ssa.UnOp); ok && u.Op == token.NOT {
+			v = u.X
+			continue
+		}
+		break
+	}
+	if bo, ok := v.(*ssa.BinOp); ok {
+		switch bo.Op {
+		case token.GEQ, token.LEQ, token.NEQ:
+			truth = !truth
+		}
+	}
+	return normCondText(raw), truth
+}
+
+// effectGuards lists, for every effect of f, the (normalised) branch conditions that control it and their truth:
+// "<effect> when <cond>=<true|false>".
+func effectGuards(f *ssa.Function) []string {
+	var out []string
+	type ce struct {
+		text  string
+		truth bool
+	}
+	var all []ce
+	seen := map[ce]bool{}
+	for _, b := range f.Blocks {
+		for k := range b.Succs {
+			if c := edgeCond(b, k); c != nil {
+				t, tr := normCond(c)
+				if !seen[ce{t, tr}] {
+					seen[ce{t, tr}] = true
+					all = append(all, ce{t, tr})
+				}
+			}
+		}
+	}
+	add := func(in ssa.Instruction, eff string) {
+		for _, g := range all {
+			g := g
+			if controlledBy(f, in, func(c *Cond) bool {
+				t, tr := normCond(c)
+				return t == g.text && tr == g.truth
+			}) {
+				out = append(out, fmt.Sprintf("%s when %s=%v", eff, g.text, g.truth))
+			}
+		}
+	}
+	instrsOf(f, func(in ssa.Instruction) {
+		switch x := in.(type) {
+		case *ssa.Store:
+			if a, ok := x.Addr.(*ssa.Alloc); ok && !a.Heap {
+				return
+			}
+			lp := ""
+			if inCycle(x.Block()) {
+				lp = " [loop]"
+			}
+			if ph, ok := strip(x.Val).(*ssa.Phi); ok && !inCycle(ph.Block()) {
+				return // per-branch values of a merged store are not located on one branch
+			}
+			add(in, "store "+canonAddr(x.Addr, 0)+" = "+canon(x.Val)+lp)
+		case *ssa.Return:
+			var rs []string
+			for i := range x.Results {
+				rs = append(rs, canon(retOperand(x, i)))
+			}
+			add(in, "return "+strings.Join(rs, ", "))
+		}
+	})
+	sort.Strings(out)
+	return uniq(out)
+}
+
 // checkShape compares effects+conditions of fn with the reviewed shape.
 func checkShape(r *Run, p *Program, rule, key string, want []string, what, consequence string) {
 	f := p.Fn(key)
@@ -302,6 +388,9 @@ func dumpShapes(p *Program) {
 		}
 		for _, c := range conds(f) {
 			fmt.Printf("\t%q,\n", "if "+c)
+		}
+		for _, g := range effectGuards(f) {
+			fmt.Printf("\tguard: %q,\n", g)
 		}
 	}
 }
